@@ -92,27 +92,29 @@ def run(R, tier, seed, driver_ok):
             if sh:
                 lines.append(f'check_input classic {len(sh)} {" ".join(map(str, sh))} {kind} {int(nan)} {int(inf)} none none 1')
                 meta.append(('ValueError', {'est': name, 'method': 'transform', 'malformation': tag}, obj))
-        Xm = rng.randn(5, d + 1)
-        R.case(('c06', name, 'transform', 'feature-mismatch'), True, branch='transform')
-        call(R, name, est.transform, (Xm,), f'{name}.transform/feature-mismatch', 'transform(d+1 features)', {'est': name, 'method': 'transform', 'malformation': 'feature-mismatch'})
+        widths = sorted({1, d - 1, d + 1, 2 * d} - {0, d})      # every other feature count, 1 included (broadcasting trap)
+        for wd in widths:
+            Xm = rng.randn(5, wd)
+            R.case(('c06', name, 'transform', f'feature-mismatch-{wd}'), True, branch='transform')
+            call(R, name, est.transform, (Xm,), f'{name}.transform/feature-mismatch', f'transform({wd} features, fitted on {d})', {'est': name, 'method': 'transform', 'malformation': f'feature-mismatch-{wd}', 'fitted_features': d})
         for m in ['pair_distance', 'pair_score', 'score_pairs']:
-            for tag, obj in prs + [('feature-mismatch', rng.randn(4, 2, d + 1))]:
+            for tag, obj in prs + [(f'feature-mismatch-{wd}', rng.randn(4, 2, wd)) for wd in widths]:
                 R.case(('c06', name, m, tag), True, branch=m)
-                call(R, name, getattr(est, m), (obj,), f'{name}.{m}/{tag}', f'{m}({tag})', {'est': name, 'method': m, 'malformation': tag})
+                call(R, name, getattr(est, m), (obj,), f'{name}.{m}/{tag.split("-mismatch")[0] + "-mismatch" if "mismatch" in tag else tag}', f'{m}({tag}, fitted on {d} features)', {'est': name, 'method': m, 'malformation': tag, 'fitted_features': d})
                 sh, kind, nan, inf = desc_of(obj)
-                if sh and tag != 'feature-mismatch' and m == 'pair_distance':
+                if sh and 'feature-mismatch' not in tag and m == 'pair_distance':
                     lines.append(f'check_input tuples {len(sh)} {" ".join(map(str, sh))} {kind} {int(nan)} {int(inf)} none 2 1')
                     meta.append(('ValueError', {'est': name, 'method': m, 'malformation': tag}, obj))
         if t is not None:
             tps = malformed_tuples(rng, t, d)
             for m in ['predict', 'decision_function', 'score']:
-                for tag, obj in tps + [('feature-mismatch', rng.randn(4, t, d + 1))]:
+                for tag, obj in tps + [(f'feature-mismatch-{wd}', rng.randn(4, t, wd)) for wd in widths]:
                     n_ = np.shape(obj)[0] if np.ndim(obj) else 1
                     a = (obj, np.where(np.arange(max(n_, 2)) % 2 == 0, 1, -1)[:n_]) if (m == 'score' and name in zoo.PAIRS) else (obj,)
                     R.case(('c06', name, m, tag), True, branch=m)
-                    call(R, name, getattr(est, m), a, f'{name}.{m}/{tag}', f'{m}({tag})', {'est': name, 'method': m, 'malformation': tag})
+                    call(R, name, getattr(est, m), a, f'{name}.{m}/{"feature-mismatch" if "mismatch" in tag else tag}', f'{m}({tag}, fitted on {d} features)', {'est': name, 'method': m, 'malformation': tag, 'fitted_features': d})
                     sh, kind, nan, inf = desc_of(obj)
-                    if sh and tag != 'feature-mismatch' and m == 'decision_function':
+                    if sh and 'feature-mismatch' not in tag and m == 'decision_function':
                         lines.append(f'check_input tuples {len(sh)} {" ".join(map(str, sh))} {kind} {int(nan)} {int(inf)} none {t} 1')
                         meta.append(('ValueError', {'est': name, 'method': m, 'malformation': tag}, obj))
         if name in zoo.PAIRS:
@@ -122,6 +124,9 @@ def run(R, tier, seed, driver_ok):
                 yy = np.where(np.arange(max(n_, 2)) % 2 == 0, 1, -1)[:n_]
                 R.case(('c06', name, 'calibrate_threshold', tag), True, branch='calibrate_threshold')
                 call(R, name, est.calibrate_threshold, (obj, yy), f'{name}.calibrate_threshold/{tag}', f'calibrate_threshold({tag})', {'est': name, 'method': 'calibrate_threshold', 'malformation': tag})
+            for wd in widths:
+                R.case(('c06', name, 'calibrate_threshold', f'feature-mismatch-{wd}'), True, branch='calibrate_threshold')
+                call(R, name, est.calibrate_threshold, (rng.randn(6, 2, wd), yg), f'{name}.calibrate_threshold/feature-mismatch', f'calibrate_threshold({wd} features, fitted on {d})', {'est': name, 'method': 'calibrate_threshold', 'malformation': f'feature-mismatch-{wd}', 'fitted_features': d})
             for tag, yy in [('labels-01', np.array([0, 1, 0, 1, 0, 1])), ('labels--1-2', np.array([-1, 2, -1, 2, -1, 2])),
                             ('labels-1-1.5', np.array([1, 1.5, 1, 1.5, 1, 1.5])), ('labels-short', yg[:4]), ('labels-long', np.concatenate([yg, yg])),
                             ('labels-text', np.array(['a', 'b', 'a', 'b', 'a', 'b']))]:
@@ -230,6 +235,23 @@ def run(R, tier, seed, driver_ok):
             real = type(e).__name__
         sk_lines.append(f'check_input sk {len(sh)} {" ".join(map(str, sh))} {kind} {int(nan)} {int(inf)} none none 1')
         sk_meta.append((real, case))
+    # ---- estimators fitted on ONE feature, queried with wider points (the other side of the broadcasting trap)
+    for name in ['Covariance', 'NCA', 'MLKR', 'ITML', 'MMC', 'LSML', 'SCML']:
+        try:
+            with warnings.catch_warnings():
+                warnings.simplefilter('ignore')
+                est1, X1, y1, args1 = zoo.fitted(name, rng, d=1)
+        except Exception as e:
+            R.count(f'one-feature-fit-raises:{name}:{type(e).__name__}')
+            continue
+        t1 = zoo.TUPLE_SIZE.get(name)
+        for wd in (2, 3):
+            probes = [('transform', (rng.randn(4, wd),)), ('pair_distance', (rng.randn(4, 2, wd),)), ('pair_score', (rng.randn(4, 2, wd),))]
+            if t1 is not None:
+                probes += [('decision_function', (rng.randn(4, t1, wd),)), ('predict', (rng.randn(4, t1, wd),))]
+            for m, a in probes:
+                R.case(('c06', name, m, f'one-feature-model-given-{wd}'), True, branch='one-feature-model')
+                call(R, name, getattr(est1, m), a, f'{name}.{m}/feature-mismatch', f'{m}({wd} features, fitted on 1)', {'est': name, 'method': m, 'malformation': f'feature-mismatch-{wd}', 'fitted_features': 1})
     if driver_ok:
         outs = lean_run(lines)
         for o, (exp, case, obj) in zip(outs, meta):
